@@ -60,6 +60,14 @@ def dataset(rnd, nev, maxn):
     return [_mk("Event", rnd, c, maxn) for _ in range(nev)]
 
 
+def _fadd(a, b=0, k=0):
+    return a + 2 * b + 3 * k
+
+
+# plain functions a query may call by name (positional and keyword arguments)
+GLOB = {"fadd": _fadd}
+
+
 def datasets(rnd):
     return [[], dataset(rnd, 2, 2), dataset(rnd, 3, 3)]
 
@@ -217,6 +225,9 @@ class Gen:
                     kws = [ast.keyword(arg="b", value=self.num(env, d - 1))]
                 return ast.Call(func=attr(o, "m"), args=args, keywords=kws)
         if ch < 0.88:
+            if r.random() < 0.5:
+                self.feat.add("plain-function-keywords")
+                return ast.Call(func=N("fadd"), args=[self.num(env, d - 1)], keywords=[ast.keyword(arg=r.choice(["b", "k"]), value=self.num(env, d - 1))])
             return ast.UnaryOp(op=ast.USub(), operand=self.num(env, d - 1))
         if d > 1:  # pack then project immediately
             self.feat.add("literal-projection")
